@@ -60,4 +60,180 @@ theorem size_hint_exact {std : Std} {cfg : Headers} {r : Rng Data} {st : DeState
   unfold sizeHint
   rw [nextN_rows, hrows, List.length_drop, List.length_drop, rows_length hw.inv]
 
+/-! ## without headers: a record is the row's cells by position -/
+
+/-- `Headers::None`: whatever the record type asks for (`seq` or `map`: there are no headers, so a map request
+    falls back to a sequence), row `j` is handed over as its `width` cells in column order, the cell at
+    relative column `i` with the absolute position `(start.row + j, start.col + i)`. -/
+theorem seq_by_position {std : Std} {r : Rng Data} {st : DeState} (hw : WF r)
+    (h : new std .none r = .ok st) (sh : Shape) (j : Nat) (row : List Data)
+    (hr : (Range.rows r)[j]? = some row) :
+    rowItem st.colIdx st.headers row (r.sr + j, r.sc) sh =
+      .seq r.width (row.zipIdx.map fun p => .ok (p.1, (r.sr + j, r.sc + p.2))) := by
+  rw [new_none_eq] at h; injection h with h; subst h
+  have hl := row_length hw.inv j row hr
+  have h0 : r.inner.length ≠ 0 := by
+    intro hz; rw [rows_nil_of_empty hz] at hr; simp at hr
+  have hwd := width_eq h0
+  have hec := hw.ec
+  have ho := hw.inv.ord h0
+  have hev : seqEvents (List.range r.width) row (r.sr + j, r.sc) =
+      row.zipIdx.map fun p => .ok (p.1, (r.sr + j, r.sc + p.2)) := by
+    rw [← hl, seqEvents_range]
+    apply List.map_congr_left
+    intro p hp
+    obtain ⟨d, i⟩ := p
+    have hm := List.mem_zipIdx hp
+    rw [cellPos_eq _ _ (by simp only; omega)]
+  cases sh <;> simp [rowItem, hev]
+
+/-! ## with headers: fields are bound by header string, empty cells are absent -/
+
+/-- `Headers::All` on a range with a header row `hd` (`new` succeeded, so `hd` has no error cell): the
+    headers are the texts of the header cells, and a record type asking for a map/struct is handed, for
+    row `j` after the header row, exactly the NON-EMPTY cells in column order, each keyed by the header
+    string of its column and carrying its absolute position. -/
+theorem map_by_header {std : Std} {r : Rng Data} {st : DeState} (hw : WF r)
+    (h : new std .all r = .ok st) (hd : List Data) (hhd : (Range.rows r)[0]? = some hd)
+    (j : Nat) (row : List Data) (hr : (Range.rows r)[j + 1]? = some row) :
+    st.headers = some (hd.map (textOf std)) ∧ (∀ d ∈ hd, d.isError = false) ∧
+    rowItem st.colIdx st.headers row (r.sr + 1 + j, r.sc) .map =
+      .map (row.zipIdx.filterMap fun p =>
+        if p.1.isEmpty then none
+        else some (.ok ((hd.map (textOf std)).getD p.2 [], p.1, (r.sr + 1 + j, r.sc + p.2)))) := by
+  cases hrows : Range.rows r with
+  | nil => rw [hrows] at hhd; simp at hhd
+  | cons hd' rest =>
+    have : hd' = hd := by rw [hrows] at hhd; simpa using hhd
+    subst this
+    have h0 := nonempty_of_rows hrows
+    rw [new_all_eq std h0 hrows] at h
+    cases hh : headerRow std hd' (r.sr, r.sc) with
+    | err e => simp [hh] at h
+    | panic s => simp [hh] at h
+    | ok hs =>
+      simp only [hh] at h; injection h with h; subst h
+      obtain ⟨hhs, hne⟩ := headerRow_eq_ok hh
+      subst hhs
+      refine ⟨rfl, hne, ?_⟩
+      have hl := row_length hw.inv (j + 1) row hr
+      have hl0 := row_length hw.inv 0 hd' hhd
+      have hwd := width_eq h0
+      have hec := hw.ec
+      have ho := hw.inv.ord h0
+      simp only [rowItem]
+      congr 1
+      rw [hl0, ← hl, mapEvents_range _ _ _ (by simp [hl0, hl])]
+      apply filterMap_congr_mem
+      intro p hp
+      obtain ⟨d, i⟩ := p
+      have hm := List.mem_zipIdx hp
+      rw [cellPos_eq _ _ (by simp only; omega)]
+
+/-! ## selecting headers -/
+
+/-- `Headers::Custom(names)`: the selected column of the `k`-th requested name is the FIRST column whose
+    trimmed header equals the trimmed name; columns come in the order of the request. -/
+theorem custom_headers {hs names : List Str} {idx : List Nat} (hc : customIdx hs names = .ok idx) :
+    idx.length = names.length ∧
+    ∀ (k : Nat) (n : Str), names[k]? = some n →
+      ∃ i, idx[k]? = some i ∧ ∃ hi : i < hs.length, trim hs[i] = trim n ∧
+        ∀ (i' : Nat) (hi' : i' < i), trim (hs[i']'(by omega)) ≠ trim n := by
+  unfold customIdx at hc
+  refine ⟨mapMD_ok_length _ _ _ hc, ?_⟩
+  intro k n hk
+  obtain ⟨i, hik, hf⟩ := mapMD_ok_getElem _ _ _ hc k n hk
+  refine ⟨i, hik, ?_⟩
+  cases hfi : hs.findIdx? (fun h => trim h == trim n) with
+  | none => simp [hfi] at hf
+  | some i0 =>
+    simp only [hfi] at hf; injection hf with hf; subst hf
+    obtain ⟨hi, hp, hmin⟩ := List.findIdx?_eq_some_iff_getElem.mp hfi
+    refine ⟨hi, by simpa using hp, ?_⟩
+    intro i' hi'
+    have := hmin i' hi'
+    simpa using this
+
+/-- every requested name that occurs (after trimming) among the headers is found -/
+theorem custom_headers_total {hs names : List Str}
+    (hall : ∀ n ∈ names, ∃ h ∈ hs, trim h = trim n) : ∃ idx, customIdx hs names = .ok idx := by
+  unfold customIdx
+  refine ⟨names.map fun n => (hs.findIdx? (fun h => trim h == trim n)).getD 0, ?_⟩
+  apply mapMD_ok_of_forall
+  intro n hn
+  obtain ⟨h, hh, ht⟩ := hall n hn
+  cases hfi : hs.findIdx? (fun h => trim h == trim n) with
+  | none =>
+    have := List.findIdx?_eq_none_iff.mp hfi h hh
+    simp [ht] at this
+  | some i => rfl
+
+/-- `HeaderNotFound` carries the (trimmed) FIRST requested name that matches no header -/
+theorem header_not_found {hs : List Str} (pre : List Str) (n : Str) (post : List Str)
+    (hpre : ∀ p ∈ pre, ∃ h ∈ hs, trim h = trim p) (hn : ∀ h ∈ hs, trim h ≠ trim n) :
+    customIdx hs (pre ++ n :: post) = .err (.headerNotFound (trim n)) := by
+  unfold customIdx
+  apply mapMD_first_err _ (fun m => (hs.findIdx? (fun h => trim h == trim m)).getD 0)
+  · intro p hp
+    obtain ⟨h, hh, ht⟩ := hpre p hp
+    cases hfi : hs.findIdx? (fun h => trim h == trim p) with
+    | none =>
+      have := List.findIdx?_eq_none_iff.mp hfi h hh
+      simp [ht] at this
+    | some i => rfl
+  · have : hs.findIdx? (fun h => trim h == trim n) = none := by
+      apply List.findIdx?_eq_none_iff.mpr
+      intro h hh
+      simpa using hn h hh
+    simp [this]
+
+/-- Selecting any sub-list of the requested names in any order (with repetitions) selects the
+    corresponding columns in that order: the column of a name does not depend on the other names. -/
+theorem column_permutation_independent {hs names : List Str} {idx : List Nat}
+    (hc : customIdx hs names = .ok idx) (sel : List Nat) (hsel : ∀ s ∈ sel, s < names.length) :
+    customIdx hs (sel.map fun s => names.getD s []) = .ok (sel.map fun s => idx.getD s 0) := by
+  have hlen := (custom_headers hc).1
+  unfold customIdx at hc ⊢
+  apply mapMD_ok_of_pointwise
+  · simp
+  · intro k a hk
+    rw [List.getElem?_map] at hk
+    cases hs' : sel[k]? with
+    | none => simp [hs'] at hk
+    | some s =>
+      simp only [hs', Option.map_some] at hk
+      injection hk with hk
+      have hslt : s < names.length := hsel s (List.mem_of_getElem? hs')
+      have hn : names[s]? = some a := by
+        rw [← hk]; simp [List.getD, List.getElem?_eq_getElem hslt]
+      obtain ⟨b, hb, hf⟩ := mapMD_ok_getElem _ _ _ hc s a hn
+      refine ⟨b, ?_, hf⟩
+      simp [List.getElem?_map, hs', List.getD, hb]
+
+/-- … and the events handed to the record follow: the cells of the selected columns, in the selected order -/
+theorem column_permutation_events (idx : List Nat) (row : List Data) (pos : Pos) (sel : List Nat)
+    (hsel : ∀ s ∈ sel, s < idx.length) :
+    seqEvents (sel.map fun s => idx.getD s 0) row pos =
+      sel.map fun s => (seqEvents idx row pos).getD s (.panic "") := by
+  unfold seqEvents
+  rw [List.map_map]
+  apply List.map_congr_left
+  intro s hs
+  have := hsel s hs
+  simp [List.getD, List.getElem?_map, List.getElem?_eq_getElem this]
+
+/-- `new` with custom headers on a range whose header row `hd` has no error cell: the outcome is that
+    of the column selection over the header texts (so `custom_headers`, `header_not_found` and
+    `column_permutation_independent` describe `RangeDeserializer::new`). -/
+theorem new_custom_spec (std : Std) (names : List Str) {r : Rng Data} {hd : List Data}
+    {rest : List (List Data)} (hr : Range.rows r = hd :: rest) (hne : ∀ d ∈ hd, d.isError = false) :
+    new std (.custom names) r =
+      (match customIdx (hd.map (textOf std)) names with
+       | .ok idx => .ok ⟨idx, some (hd.map (textOf std)), rest, nextRowPos (r.sr, r.sc)⟩
+       | .err e => .err e
+       | .panic s => .panic s) := by
+  rw [new_custom_eq std names (nonempty_of_rows hr) hr, headerRow_ok std hd _ hne]
+  simp only
+  cases customIdx (hd.map (textOf std)) names <;> rfl
+
 end De
